@@ -423,6 +423,34 @@ impl<T: Tab + 'static> State<T> {
                     vec![("walk".to_string(), Value::Array(walk)), ("le_in".to_string(), json!(le_in))],
                 )
             }
+            "canon_inv" => {
+                // the representative is an invariant of the orbit: canonize f and a variant of f obtained by the
+                // transformation (tperm, tmask); the variant is built HERE, value by value (the specification
+                // recomputes it), not by the library's own swap / flip
+                let a = arg_usize(op, "a");
+                let kind = arg_str(op, "kind");
+                let perm = arg_list(op, "tperm");
+                let mask = arg_list(op, "tmask");
+                let f = self.get(a);
+                let n = f.nv();
+                let on: Vec<usize> = (0..(1usize << n))
+                    .filter(|&y| {
+                        let mut x = 0usize;
+                        for i in 0..n {
+                            if ((y >> i) & 1 == 1) != mask.contains(&i) {
+                                x |= 1 << perm[i];
+                            }
+                        }
+                        f.val(x, "value") != mask.contains(&n)
+                    })
+                    .collect();
+                let g = T::c_from_blocks(n, &pack(n, &on));
+                let (r1, _, _) = f.canon(kind);
+                let (r2, _, _) = g.canon(kind);
+                let _ = volute::verif::take_walk_log();
+                let r = json!({"g": enc(&g), "r1": enc(&r1), "r2": enc(&r2)});
+                ok(vec![a], Some(r))
+            }
             "iter_start" => {
                 let n = arg_usize(op, "n");
                 let v: Box<dyn Iterator<Item = T>> = T::iter(n);
